@@ -61,7 +61,7 @@ r(V,'copyright','set_copyright','Copyright','LISTREF_LINES_NOOPT'); r(V,'comment
 # --- DEP-3
 V='Dep3'
 r(V,'origin','set_origin','Origin','ORIGIN'); r(V,'forwarded','set_forwarded','Forwarded','FORWARDED'); r(V,'author','set_author','Author','S'); r(V,'last_update','set_last_update','Last-Update','NAIVEDATE')
-r(V,'applied_upstream','set_applied_upstream','Applied-Upstream','APPLIED'); r(V,'description','set_description','Description','S')
+r(V,'applied_upstream','set_applied_upstream','Applied-Upstream','APPLIED'); r(V,'description','set_description','Description','S'); r(V,'long_description','set_long_description','Description','LONGDESC')
 
 VIEW_TY = {'CtlSource':'debian_control::lossless::control::Source','CtlBinary':'debian_control::lossless::control::Binary','AptSource':'debian_control::lossless::apt::Source','AptPackage':'debian_control::lossless::apt::Package',
  'AptRelease':'debian_control::lossless::apt::Release','Buildinfo':'debian_control::lossless::buildinfo::Buildinfo'}
@@ -73,7 +73,7 @@ def mk(view):
 CK = {'CK_MD5':('Md5Checksum','md5sum'),'CK_SHA1':('Sha1Checksum','sha1'),'CK_SHA256':('Sha256Checksum','sha256'),'CK_SHA512':('Sha512Checksum','sha512')}
 
 def set_expr(kind, sett):
-    if kind=='S': return f"v.{sett}(val.str_())"
+    if kind in ('S','LONGDESC'): return f"v.{sett}(val.str_())"
     if kind in ('OS','OS_MULTI'): return f"v.{sett}(val.ostr())"
     if kind=='PRIO_O': return f"v.{sett}(val.ostr().map(|s| s.parse::<debian_control::fields::Priority>().unwrap()))"
     if kind=='PRIO': return f"v.{sett}(val.str_().parse::<debian_control::fields::Priority>().unwrap())"
@@ -101,7 +101,7 @@ def set_expr(kind, sett):
     raise KeyError(kind)
 
 def get_expr(kind, get):
-    if kind in ('S','OS','OS_MULTI'): return f"Val::Str(v.{get}().map(|s| s.to_string()))"
+    if kind in ('S','OS','OS_MULTI','LONGDESC'): return f"Val::Str(v.{get}().map(|s| s.to_string()))"
     if kind in ('PRIO_O','PRIO','MA_O','MA','FORWARDED','APPLIED'): return f"Val::Str(v.{get}().map(|s| s.to_string()))"
     if kind in ('RELREF','OREL','RELV'): return f"Val::Rel(v.{get}().map(|r| r.to_string()))"
     if kind=='URLREF': return f"Val::Str(v.{get}().map(|u| u.to_string()))"
